@@ -451,3 +451,11 @@ def run(cx, out):
             # Bytes values are decoded through the cursor: its bookkeeping is part of "consumes exactly the encoding"
             from . import c08
             c08.check_bytes_cursor(out, facts)
+    # derived impls: the derive corpus of C05
+    from . import c05 as _c05
+    from ..report import Out as _Out
+    _sub = _Out('C05')
+    _c05.run(cx, _sub)
+    out.rule('R05.2', 'R02.3: derived decoders mirror the derived encoders per corpus definition (C05)')
+    out.rule('R05.5', 'derived in-place decode_into reads the same representation as decode (only for attribute-free transparent structs)')
+    out.absorb(_sub, {'R05.5', 'R05.2'})
